@@ -28,7 +28,22 @@ def suiteClasses : List (String × List String) := [
   ("EllipticFunction", ["EllipticFunction"]), ("NormalGravity", ["NormalGravity"]),
   ("SphericalHarmonic", ["SphericalHarmonic", "SphericalHarmonic1", "SphericalHarmonic2", "CircularEngine", "SphericalEngine"]),
   ("GravityModel", ["GravityModel", "GravityCircle"]), ("MagneticModel", ["MagneticModel", "MagneticCircle"]), ("Geoid(threadsafe)", ["Geoid"]),
-  ("static", ["UTMUPS", "MGRS", "DMS", "Geohash", "GARS", "Georef", "OSGB"]) ]
+  ("static", ["UTMUPS", "MGRS", "DMS", "Geohash", "GARS", "Georef", "OSGB"]),
+  ("GeodesicProjections", ["AzimuthalEquidistant", "CassiniSoldner", "Gnomonic", "Geodesic"]),
+  ("PolygonArea", ["PolygonAreaT", "Geodesic", "GeodesicExact", "Rhumb", "Accumulator"]),
+  ("DST", ["DST", "kissfft"]), ("DST(generic)", ["DST", "kissfft"]), ("Accumulator", ["Accumulator"]) ]
+
+/-- the common check of the three threaded ops: known suite, ≥ 2 threads, every call made, no mismatch -/
+def threaded (what cls nth ncalls made mism : String) (perCall : Nat → Nat → Nat) : Verdict :=
+  match suiteClasses.lookup cls, nth.toNat?, ncalls.toNat?, made.toNat?, mism.toNat? with
+  | some cs, some n, some nc, some m, some mm =>
+    if !(cs.all quantifierClasses.contains) then .bad s!"suite {cls} names a class the effect model does not list"
+    else if n < 2 then .bad "fewer than two threads"
+    else if nc == 0 || m < perCall n nc then .bad s!"suite {cls} made {m} calls for {nc} call sites on {n} threads"
+    else if mm != 0 then .bad s!"{mm} concurrent results differ from the solo results although the effect model has no shared write for {cls} ({what})"
+    else .ok
+  | none, _, _, _, _ => .bad s!"unknown suite {cls}"
+  | _, _, _, _, _ => .bad s!"malformed {what} line"
 
 def handle (op : String) (args res : List String) : Option Verdict :=
   match op with
@@ -45,6 +60,20 @@ def handle (op : String) (args res : List String) : Option Verdict :=
       | none, _, _, _, _ => .bad s!"unknown suite {cls}"
       | _, _, _, _, _ => .bad "malformed mt line"
     | _, _ => .bad "malformed mt line"
+  -- a shared instance in use while two more threads construct and destroy objects of every class: in addition the background
+  -- threads must have constructed something (last field)
+  | "mtc" => some <|
+    match args, res with
+    | cls :: nth :: _iters :: _seed :: _, [ncalls, made, mism, _hash, _img, built] =>
+      match built.toNat? with
+      | some b => if b == 0 then .bad "no object was constructed in the background" else threaded "mtc" cls nth ncalls made mism (fun n nc => n * nc)
+      | none => .bad "malformed mtc line"
+    | _, _ => .bad "malformed mtc line"
+  -- first use: every thread makes two calls (the same first call at once) on a fresh shared instance
+  | "fu" => some <|
+    match args, res with
+    | cls :: nth :: _which :: _seed :: _, ncalls :: made :: mism :: _ => threaded "fu" cls nth ncalls made mism (fun n _ => 2 * n)
+    | _, _ => .bad "malformed fu line"
   | "fftradix" => some <|
     match args with
     | [n] => match n.toNat? with
